@@ -7,7 +7,10 @@
 //   gate, IP filters and the cookie check are satisfied BY CONSTRUCTION (raw-byte fuzzing stalls
 //   at the MAC gate) and coverage feedback is spent on the parsers. Oracles inside the target:
 //   no panic (C01); every reply decodes as exactly one well-formed frame (C04) whose
-//   address/port tuple mirrors the request's (C03).
+//   address/port tuple mirrors the request's (C03); a reply exists only for frames in scope and
+//   comes from a handled address (C02); the connection table holds exactly the flows that sent a
+//   data segment acknowledging cookie+1 (C09, cookies learned from the responder's SYN-ACKs);
+//   the event log of every frame is balanced, nested, faithful (C20's judge, all three loggers).
 // fz_stream: bytes -> (protocol selector, stream, cut positions); C11's relation between the
 //   unsplit delivery, the finest delivery and the given segmentation.
 //
@@ -56,6 +59,133 @@ fn cfg_from(sel: u8, sel2: u8) -> (Cfg, Net) {
     (cfg, net)
 }
 
+// ---------------------------------------------------------------------------------------
+// further oracles embedded in fz_frames
+
+enum Validates {
+    Yes(Vec<u8>),
+    No,
+    Unknown,
+}
+
+struct TableModel {
+    validated: std::collections::HashSet<Vec<u8>>,
+    cookies: std::collections::HashMap<Vec<u8>, Option<u32>>,
+    unknown: usize,
+}
+
+impl TableModel {
+    /// C09's rule for one frame: a TCP segment with PSH and ACK whose acknowledgement number is
+    /// the cookie of its 4-tuple + 1 validates the flow — provided the frame is in scope and its
+    /// header fields agree with the bytes present (otherwise: Unknown)
+    fn validates(&mut self, sut: &Sut, cfg: &Cfg, f: &[u8]) -> Validates {
+        let v = match view_request(f) {
+            Some(v) => v,
+            None => return Validates::No,
+        };
+        if !super::gen::auth_macs(cfg).contains(&v.dst) {
+            return Validates::No;
+        }
+        let ip = match &v.ip {
+            Some(ip) => ip,
+            None => return Validates::No,
+        };
+        if ip.proto != P_TCP {
+            return Validates::No;
+        }
+        let p = &f[14..];
+        let consistent = if ip.v == 4 {
+            p[0] >> 4 == 4 && (p[0] & 0x0f) >= 5 && be16(p, 2) as usize == p.len() && ((p[0] & 0x0f) as usize) * 4 <= p.len()
+        } else {
+            p[0] >> 4 == 6 && be16(p, 4) as usize + 40 == p.len()
+        };
+        if ip.l4.len() < 20 {
+            return if consistent { Validates::No } else { Validates::Unknown };
+        }
+        let doff = (ip.l4[12] >> 4) as usize * 4;
+        if !consistent || doff < 20 || doff > ip.l4.len() {
+            return Validates::Unknown;
+        }
+        if !cfg.in_self(&ip.dst) || cfg.denied(&ip.src) {
+            return Validates::No;
+        }
+        let flags = ip.l4[13];
+        if flags & 0x18 != 0x18 {
+            return Validates::No;
+        }
+        let mut key = ip_octets(&ip.src);
+        key.extend_from_slice(&ip_octets(&ip.dst));
+        key.extend_from_slice(&ip.l4[0..4]);
+        if self.validated.contains(&key) {
+            return Validates::No;
+        }
+        let cookie = match self.cookies.get(&key) {
+            Some(c) => *c,
+            None => {
+                let flow = Flow { net: Net { cmac: v.src, dmac: v.dst, cip: ip.src, sip: ip.dst }, sport: be16(&ip.l4, 0), dport: be16(&ip.l4, 2) };
+                let c = learn_cookie(sut, &flow, 7).ok();
+                self.cookies.insert(key.clone(), c);
+                c
+            }
+        };
+        match cookie {
+            Some(c) if be32(&ip.l4, 8) == c.wrapping_add(1) => Validates::Yes(key),
+            _ => Validates::No,
+        }
+    }
+}
+
+/// C02: a reply exists only for frames in scope, and comes from a handled address
+fn scope_check(cfg: &Cfg, f: &[u8], r: &[u8]) -> Result<(), String> {
+    let v = match view_request(f) {
+        Some(v) => v,
+        None => return Err("a frame shorter than an Ethernet header was answered".into()),
+    };
+    let tail = || format!("(request {} reply {})", hex(&f[..f.len().min(120)]), hex(&r[..r.len().min(120)]));
+    if !super::gen::auth_macs(cfg).contains(&v.dst) {
+        return Err(format!("frame to the unauthorised destination MAC {} was answered {}", hex(&v.dst), tail()));
+    }
+    if ![ET_ARP, ET_V4, ET_V6].contains(&v.ethertype) {
+        return Err(format!("frame with EtherType {:#06x} was answered {}", v.ethertype, tail()));
+    }
+    if let Some(ip) = &v.ip {
+        if cfg.denied(&ip.src) {
+            return Err(format!("frame from the denied address {} was answered {}", ip.src, tail()));
+        }
+        let ok = if ip.v == 4 { [P_ICMP, P_TCP, P_UDP].contains(&ip.proto) } else { [P_ICMP6, P_TCP, P_UDP].contains(&ip.proto) };
+        if !ok {
+            return Err(format!("IP protocol / next header {} was answered {}", ip.proto, tail()));
+        }
+    }
+    if let (Some(s), Ok(d)) = (&cfg.self_ips, decode_reply(r)) {
+        match &d.l3 {
+            L3D::Arp(a, _) => {
+                let spa = IpAddr::V4(Ipv4Addr::from(a.spa));
+                if !s.contains(&spa) {
+                    return Err(format!("ARP reply advertises {} which is not on the self-IP list {}", spa, tail()));
+                }
+            }
+            L3D::Ip(ip) => {
+                if !s.contains(&ip.src) {
+                    return Err(format!("reply sourced from {} which is not on the self-IP list {}", ip.src, tail()));
+                }
+                if let L4D::Icmp6 { typ: 136, rest, .. } = &ip.l4 {
+                    if rest.len() >= 20 {
+                        let mut t = [0u8; 16];
+                        t.copy_from_slice(&rest[4..20]);
+                        let ta = IpAddr::V6(Ipv6Addr::from(t));
+                        if !s.contains(&ta) {
+                            return Err(format!("neighbour advertisement for {} which is not on the self-IP list {}", ta, tail()));
+                        }
+                    }
+                }
+            }
+            L3D::Other => {}
+        }
+    }
+    Ok(())
+}
+
 fn violation(prop: &str, msg: String) -> ! {
     // the harness's panic hook is silent: print first
     eprintln!("VERIF-VIOLATION {}: {}", prop, msg);
@@ -78,6 +208,8 @@ pub fn frames_checked(data: &[u8]) -> Result<u64, (String, String)> {
     let sut = Sut::new(&cfg);
     let mut cookies: [Option<u32>; 4] = [None; 4];
     let mut seqs: [u32; 4] = [100; 4];
+    let mut model = TableModel { validated: std::collections::HashSet::new(), cookies: std::collections::HashMap::new(), unknown: 0 };
+    let logging = cfg.logger == LoggerKind::Console || cfg.logger == LoggerKind::Logfmt;
     let mut i = 2usize;
     let mut nframes = 0u64;
     while i + 4 <= data.len() && nframes < 12 {
@@ -155,10 +287,60 @@ pub fn frames_checked(data: &[u8]) -> Result<u64, (String, String)> {
             }
         };
         nframes += 1;
-        match sut.frame(&frame) {
+        // C09 reference model: does this frame validate its flow? (decided before it is sent; the
+        // cookie of an arbitrary tuple is learned from the responder's own SYN-ACK)
+        let validates = model.validates(&sut, &cfg, &frame);
+        if logging {
+            let _ = capture_take();
+        }
+        let _ = events_take();
+        let out = sut.frame(&frame);
+        // C20: the event log of this frame
+        if let Out::Panic(_) = &out {
+        } else if cfg.logger != LoggerKind::None {
+            use super::props::c20::{judge_events, parse_console, parse_logfmt, Ev};
+            let evs: Result<Vec<Ev>, String> = match cfg.logger {
+                LoggerKind::Console => parse_console(&String::from_utf8_lossy(&capture_take())),
+                LoggerKind::Logfmt => parse_logfmt(&String::from_utf8_lossy(&capture_take())),
+                _ => Ok(events_take().into_iter().map(|e| Ev { layer: e.layer.to_string(), verb: e.verb.to_string(), fields: vec![] }).collect()),
+            };
+            match evs {
+                Err(e) => return Err(("C20".into(), format!("log of frame {} not well-formed: {}", hex(&frame[..frame.len().min(120)]), e))),
+                Ok(evs) => {
+                    if let Err(f) = judge_events(&cfg, &frame, &evs, out.reply()) {
+                        return Err(("C20".into(), f.msg));
+                    }
+                }
+            }
+        }
+        // C09: size of the connection table = number of validated flows
+        if !matches!(out, Out::Panic(_)) {
+            match validates {
+                Validates::Yes(key) => {
+                    model.validated.insert(key);
+                }
+                Validates::No => {}
+                Validates::Unknown => {
+                    // header fields disagree with the bytes present: the model cannot tell what the
+                    // responder parsed; accept at most one new entry and resynchronise
+                    let n = Sut::tcb_len();
+                    if n == model.validated.len() + model.unknown + 1 {
+                        model.unknown += 1;
+                    }
+                }
+            }
+            let n = Sut::tcb_len();
+            if n != model.validated.len() + model.unknown {
+                return Err(("C09".into(), format!("connection table holds {} entries after frame {} but {} flows have sent a data segment acknowledging their cookie+1", n, hex(&frame[..frame.len().min(160)]), model.validated.len() + model.unknown)));
+            }
+        }
+        match out {
             Out::Panic(p) => return Err(("C01".into(), format!("panic at {}:{} \"{}\" on frame {}", p.file, p.line, p.msg, hex(&frame[..frame.len().min(160)])))),
             Out::Silence => {}
             Out::Reply(r) => {
+                if let Err(m) = scope_check(&cfg, &frame, &r) {
+                    return Err(("C02".into(), m));
+                }
                 let d = match decode_reply(&r) {
                     Ok(d) => d,
                     Err(e) => return Err(("C04".into(), format!("reply does not decode: {} (request {} reply {})", e, hex(&frame[..frame.len().min(120)]), hex(&r[..r.len().min(120)])))),
